@@ -2,7 +2,7 @@
 (* X07 - model-checking wrapper and script generator of MqttWatch.  Gap = FALSE: the watch is never   *)
 (* lost (admin deletes and their notifications only); Gap = TRUE: scripts lose the watch once or       *)
 (* twice, with deletions, connects and disconnects before, during and after the gap.                    *)
-EXTENDS MqttWatch, Json, SequencesExt
+EXTENDS MqttWatch, Json, SequencesExt, TLC
 
 CONSTANTS MaxSteps, Gap,
           Focus      \* TRUE: the watch is lost only while somebody is connected, and comes back only after the session of a
@@ -23,4 +23,13 @@ GNext == /\ k < MaxSteps /\ k' = k + 1
 GSpec == GInit /\ [][GNext]_gvars
 MCNext == (\E c \in Clients : WConnect(c) \/ WLeave(c) \/ WDelete(c)) \/ WLose \/ WRewatch
 MCSpec == GInit /\ [][MCNext /\ UNCHANGED <<out, k, gd>>]_gvars
+
+(* vacuity probes (see MqttConn_Gen) *)
+WProbes == << watch = "down" /\ ~(conn \subseteq store),          \* a connected client's session was deleted in the gap
+              watch = "down" /\ conn # {} /\ conn \subseteq store,  \* watch lost, store unchanged
+              watch = "up" /\ deleted \cap ever # {} /\ conn # {},
+              left # {} /\ left \cap store # {} >>
+ASSUME \A i \in 1..4 : TLCSet(10 + i, FALSE)
+WReachNote == \A i \in 1..4 : WProbes[i] => TLCSet(10 + i, TRUE)
+WAllReached == \A i \in 1..4 : TLCGet(10 + i) \/ (PrintT(<<"probe never reached", i>>) /\ FALSE)
 =============================================================================
